@@ -485,8 +485,22 @@ func firstDiff(a, b []string) string {
 	return fmt.Sprintf("lengths %d vs %d", len(a), len(b))
 }
 
+// violateKeyed stores at most three violations per key (all are counted)
+var keyedSeen = map[string]int{}
+
+func violateKeyed(r *Report, v Violation) {
+	r.Count("violation:"+v.Key, 1)
+	keyedSeen[v.Key]++
+	if keyedSeen[v.Key] <= 3 {
+		r.Violate(v)
+	} else {
+		r.Count("violation", 1)
+	}
+}
+
 func runC10(c *Ctx) {
 	r := c.R
+	c10CompilePatch(c)
 	r.Rule = "trees built as Go ast values: every chain slot/slot/kind to depth 3 over all 22 node kinds and all 28 child positions (incl. nil From/To, empty lists), every tree of depth<=3 over {Identifier, Binary, Slice, Array}, random trees to depth 6; parsed sources: 41 contexts x 11 leaves, all context pairs, random compositions; each walked by the real ast.Walk with an idle and with replacing visitors (Enter/Exit x assignment/ast.Patch, at every position of small trees), compared with the Lean model (table from ast/visitor.go) and with the reflection oracle; expr.Compile with expr.Patch replacing an identifier in every context; non-trivial = tree has >= 2 nodes; distinct by (tree, visitor, position)"
 
 	var cases []c10case
@@ -504,7 +518,9 @@ func runC10(c *Ctx) {
 					k = 1 + c.Rng.Intn(cnt)
 				}
 				cases = append(cases, c10case{label, m, k, t, where, path, cnt})
-				cases = append(cases, c10case{label, m, cnt, t, where, path, cnt})
+				if c.Thorough() {
+					cases = append(cases, c10case{label, m, cnt, t, where, path, cnt})
+				}
 			}
 		}
 	}
@@ -537,7 +553,7 @@ func runC10(c *Ctx) {
 	for j := 0; j < nrand; j++ {
 		addTree(fmt.Sprintf("random:%d", j), randomTree(c, 3+c.Rng.Intn(4)), allModes[:2], false)
 	}
-	nsrc := 4200
+	nsrc := 3000
 	if c.Thorough() {
 		nsrc = 20000
 	}
@@ -585,7 +601,7 @@ func runC10(c *Ctx) {
 		}
 		input := map[string]interface{}{"tree": cs.label, "sexp": nodeSx(cs.proto, false).String(), "visitor": cs.mode, "position": cs.k}
 		if pan != "" {
-			r.Violate(Violation{What: "ast.Walk panicked", Key: "c10:panic", Input: input, Expect: "normal return", Got: pan})
+			violateKeyed(r, Violation{What: "ast.Walk panicked", Key: "c10:panic", Input: input, Expect: "normal return", Got: pan})
 			continue
 		}
 		gotTree := nodeSx(got, false).String()
@@ -631,13 +647,11 @@ func runC10(c *Ctx) {
 			if vkey == "" {
 				vkey, what = "c10:order", "Enter/Exit stream is not parent-around-children in field order: "+firstDiff(want, evs)
 			}
-			r.Count("violation:"+vkey, 1)
-			r.Violate(Violation{What: what, Key: vkey, Input: input, Expect: strings.Join(want, " "), Got: strings.Join(evs, " ")})
+			violateKeyed(r, Violation{What: what, Key: vkey, Input: input, Expect: strings.Join(want, " "), Got: strings.Join(evs, " ")})
 			continue
 		}
 		if wantTree != gotTree {
-			r.Count("violation:c10:replacement-lost:"+cs.where[cs.k], 1)
-			r.Violate(Violation{What: "a replacement made by the visitor is not in the tree after the walk", Key: "c10:replacement-lost:" + cs.where[cs.k], Input: input, Expect: wantTree, Got: gotTree})
+			violateKeyed(r, Violation{What: "a replacement made by the visitor is not in the tree after the walk", Key: "c10:replacement-lost:" + cs.where[cs.k], Input: input, Expect: wantTree, Got: gotTree})
 		}
 	}
 
@@ -651,8 +665,6 @@ func runC10(c *Ctx) {
 		}
 	}
 	r.Count("positions-covered", len(posSeen))
-
-	c10CompilePatch(c)
 }
 
 // ---- replacement through expr.Compile(…, expr.Patch(v)) -----------------------------------------
@@ -765,8 +777,7 @@ func c10CompilePatch(c *Ctx) {
 				r.Case("patch:"+vis.desc+":"+cx.src+fmt.Sprint(opt), true)
 				r.Count("compile-patch", 1)
 				if got != want || got2 != want {
-					r.Count("violation:c10:patch-not-applied:"+cx.name, 1)
-					r.Violate(Violation{What: "a visitor's replacement of identifier x does not take effect in the compiled program: " + decode(got),
+					violateKeyed(r, Violation{What: "a visitor's replacement of identifier x does not take effect in the compiled program: " + decode(got),
 						Key: "c10:patch-not-applied:" + cx.name, Input: map[string]interface{}{"source": cx.src, "visitor": vis.desc, "optimize": opt, "env": "x undefined; z = mk() = [10,20,30]"},
 						Expect: want, Got: got})
 				}
